@@ -93,12 +93,17 @@ Inductive instr :=
                                                          ret = Some e: the iterator has a return() logging e *)
 | IGen (segs : codes)                                 (* g.next() once per segment of a generator body *)
 | IGenRet (pre fin : code)                            (* function*(){ try { pre; yield } finally { fin } }: g.next(); g.return() *)
-| IAsync (pre post : code)                            (* async function: pre; await; post (post as a promise job) *)
+| IAsyncN (pres posts : codes)                        (* a chain of async functions, each awaiting the next one's promise:
+                                                         pres = bodies before the await, outermost first (the innermost
+                                                         awaits a plain value); posts = bodies after the await,
+                                                         innermost first (the order in which they are resumed) *)
 | IJob (b : code)                                     (* Promise.resolve().then(function(){ b }) *)
 with code := CNil | CCons (i : instr) (c : code)
 with codes := SNil | SCons (c : code) (s : codes).
 
-Inductive job := JPlain (b : code) | JAsync (b : code).
+(* JChain posts: resume the async function whose continuation is the head; when it completes normally its promise
+   is fulfilled, which schedules the continuation of the function awaiting it (the tail) *)
+Inductive job := JPlain (b : code) | JChain (posts : codes).
 
 Inductive outcome := ONorm | OThrow | OIntr (tok : N).
 
@@ -317,20 +322,13 @@ Section Exec.
             end
         | OIntr _ => gen_intr c o1 s3
         end
-    | IAsync pre post =>
-        (* asyncRunner.start: gen.enter() = pushCtx; pushTryFrame(marker); then the function's own frame *)
-        let s0 := push_ctx s in
-        let s1 := push_frame FMarker s0 in
-        let d := length (ts s1) in
-        let '(o, s2) := exec_c pre (push_ctx s1) in
+    | IAsyncN pres posts =>
+        let '(o, s1) := exec_async pres s in
         match o with
-        | ONorm => (ONorm, enqueue (JAsync post) (pop_ctx (pop_frame (pop_ctx s2))))
-        | OThrow => let '(o', s3) := restore_to c d s2 in
-                    match o' with
-                    | OThrow => (ONorm, pop_ctx (pop_frame s3))   (* promise rejected *)
-                    | _ => (o', pop_ctx (pop_frame (unwind_u c s3)))
-                    end
-        | OIntr _ => (o, pop_ctx (pop_frame (unwind_u c s2)))
+        | ONorm => (ONorm, enqueue (JChain posts) s1)      (* the innermost function reached its await *)
+        | OThrow => (ONorm, s1)                            (* a body threw: its promise is rejected, the rejection
+                                                              passes through the awaiting functions without running code *)
+        | OIntr _ => (o, s1)
         end
     | IJob b => (ONorm, enqueue (JPlain b) s)
     end
@@ -428,6 +426,33 @@ Section Exec.
         end
     end
 
+  (* the synchronous part of a chain of async functions.  asyncRunner.start: gen.enter() = pushCtx;
+     pushTryFrame(marker); the function's own frame; the body runs up to its await, where the awaited expression is
+     the call of the next function (an instruction of this body).  Result ONorm: every body reached its await;
+     OThrow: some body threw (nothing of the chain will run any more); pops deferred (leaveOnPanic). *)
+  with exec_async (l : codes) (s : st) {struct l} : outcome * st :=
+    match l with
+    | SNil => (ONorm, s)
+    | SCons b l' =>
+        let s1 := push_frame FMarker (push_ctx s) in
+        let d := length (ts s1) in
+        let '(o, s2) := exec_c b (push_ctx s1) in
+        match o with
+        | ONorm =>
+            let '(o2, s3) := exec_async l' s2 in
+            match o2 with
+            | OIntr _ => (o2, pop_ctx (pop_frame (unwind_u c s3)))
+            | _ => (o2, pop_ctx (pop_frame (pop_ctx s3)))          (* await: suspend *)
+            end
+        | OThrow => let '(o', s3) := restore_to c d s2 in
+                    match o' with
+                    | OThrow => (OThrow, pop_ctx (pop_frame s3))   (* promise rejected *)
+                    | _ => (o', pop_ctx (pop_frame (unwind_u c s3)))
+                    end
+        | OIntr _ => (o, pop_ctx (pop_frame (unwind_u c s2)))
+        end
+    end
+
   (* generatorObject.next -> generator.next: native context; enterNext = pushCtx; pushTryFrame(marker);
      extra frame; step(); popTryFrame; popCtx — since 195c9cc the two pops also run on the panic path
      (deferred leaveOnPanic, func.go) *)
@@ -467,14 +492,15 @@ Section Exec.
                     end
         | OIntr _ => (o, recover_deferred (recover_deferred s1))
         end
-    | JAsync b =>
-        (* asyncRunner.onFulfilled -> generator.next: as exec_gen without the native call context *)
+    | JChain SNil => (ONorm, s)
+    | JChain (SCons b rest) =>
+        (* asyncRunner.onFulfilled (under the job's vm.try) -> generator.next: context, marker, extra context *)
         let s0 := push_ctx (push_frame FMarker s) in
         let s1 := push_frame FMarker s0 in
         let d := length (ts s1) in
         let '(o, s2) := exec_c b (push_ctx s1) in
         match o with
-        | ONorm => (ONorm, pop_frame (pop_ctx (pop_frame (pop_ctx s2))))
+        | ONorm => (ONorm, enqueue (JChain rest) (pop_frame (pop_ctx (pop_frame (pop_ctx s2)))))
         | OThrow => let '(o', s3) := restore_to c d s2 in
                     match o' with
                     | OThrow => (ONorm, pop_frame (pop_ctx (pop_frame s3)))
@@ -570,9 +596,11 @@ Section Exec.
     end.
 End Exec.
 
-(* the idle vector compared with VerifIdle: callStack, tryStack, iterStack, jobQueue, interrupted *)
+(* the idle vector compared with VerifIdle: callStack, tryStack, iterStack, jobQueue, interrupted, and whether
+   vm.curAsyncRunner is set: it is set only while a promise job resumes an async function and reset by a deferred
+   function, so it is nil whenever control is outside the runtime *)
 Definition idle_vec (s : st) : list nat :=
-  [cs s; length (ts s); length (its s); length (jq s); if flag s then 1 else 0].
+  [cs s; length (ts s); length (its s); length (jq s); (if flag s then 1 else 0); 0].
 
 Definition is_idle (s : st) : bool :=
   Nat.eqb (cs s) 0 && Nat.eqb (length (ts s)) 0 && Nat.eqb (length (its s)) 0 && Nat.eqb (length (jq s)) 0 && negb (flag s).
